@@ -41,6 +41,15 @@ Definition oct : list apair :=
     ((0, 0, 1), (0, 0, -1)); ((0, 0, -1), (0, 0, 1)) ].
 
 Ltac oct_compute := unfold oct, inp_of, Rf.mkin, Ga, Gb, Mab, vnorm2, vx, vy, vz; cbn [sumf fst snd].
+Ltac small := unfold Rf.mkin; gen_unfold; proj.
+
+(* the inputs of msdFromMandG for the witness, as numerals (keeps the later arithmetic small) *)
+Lemma inp_oct : inp_of oct 6 = Rf.mkin 6 6 6 2 0 0 0 (-2) 0 0 0 (-2) 6.
+Proof.
+  unfold inp_of, natoms, Ga, Gb, Mab, oct, vnorm2, vx, vy, vz. cbn [sumf fst snd length INR]. f_equal; lra.
+Qed.
+Lemma G_oct : Ga oct = 6 /\ Gb oct = 6.
+Proof. unfold Ga, Gb, oct, vnorm2, vx, vy, vz. cbn [sumf fst snd]. split; lra. Qed.
 
 Theorem superpose_attains_cur_refuted : exists l lam, let i := inp_of l lam in
   l <> [] /\ centred l /\ charpoly i lam = 0 /\ dominates i lam /\
@@ -49,17 +58,18 @@ Theorem superpose_attains_cur_refuted : exists l lam, let i := inp_of l lam in
 Proof.
   exists oct, 6. cbv zeta. split; [discriminate|]. split; [|split; [|split; [|split]]].
   - unfold centred, sumx, sumy, oct, vzero, vx, vy, vz. cbn [sumf fst snd]. split; f_equal; [f_equal| |f_equal|]; ring.
-  - unfold charpoly. oct_compute. gen_unfold. proj. ring.
-  - intros a b c d U. unfold qKq. oct_compute. gen_unfold. proj. nra.
-  - assert (Z : n4 (Kcol (inp_of oct 6) 6 0) = 0).
-    { unfold n4, Kcol. cbv [adjcol]. unfold det3. oct_compute. gen_unfold. proj. ring. }
+  - rewrite inp_oct. unfold charpoly. small. ring.
+  - intros a b c d U. rewrite inp_oct. unfold qKq. small. nra.
+  - destruct G_oct as [-> ->]. rewrite inp_oct.
+    assert (Z : n4 (Kcol (Rf.mkin 6 6 6 2 0 0 0 (-2) 0 0 0 (-2) 6) 6 0) = 0).
+    { unfold n4, Kcol. cbv [adjcol]. unfold det3. small. ring. }
     unfold rot_cur. destruct (Rlt_dec _ _) as [H|H]; [|rewrite Z in H; lra].
-    unfold resid, ident, rowmul, oct, Ga, Gb, vnorm2, vsub, vadd, vzero, vx, vy, vz. cbn [sumf fst snd r0 r1 r2 r3 r4 r5 r6 r7 r8]. lra.
-  - exists 1%nat. pose proof (superpose_attains_fix oct 6 1%nat) as F. cbv zeta in F.
+    unfold resid, ident, rowmul, oct, vnorm2, vsub, vadd, vzero, vx, vy, vz. cbn [sumf fst snd r0 r1 r2 r3 r4 r5 r6 r7 r8]. lra.
+  - exists 1%nat.
     assert (P : 0 < n4 (Kcol (inp_of oct 6) 6 1)).
-    { unfold n4, Kcol. cbv [adjcol]. unfold det3. oct_compute. gen_unfold. proj. lra. }
+    { rewrite inp_oct. unfold n4, Kcol. cbv [adjcol]. unfold det3. small. lra. }
     apply eigen_rotation_attains; [|exact P]. apply Kcol_is_eigvec.
-    unfold charpoly. oct_compute. gen_unfold. proj. ring.
+    rewrite inp_oct. unfold charpoly. small. ring.
 Qed.
 
 Ltac proj_all := cbn [Rf.G_x Rf.G_y Rf.numAtoms Rf.M0 Rf.M1 Rf.M2 Rf.M3 Rf.M4 Rf.M5 Rf.M6 Rf.M7 Rf.M8 Rf.h_lambda_1] in *.
@@ -74,14 +84,18 @@ Ltac eval_ifs :=
 (* non-vacuity of the hypotheses of rmsd_optimal_partial / superpose_attains: the octahedron against
    itself (lam = G = 6) is centred, lam is a root and dominates, and the code does not fall back *)
 Definition oct_self : list apair := map (fun p => (fst p, fst p)) oct.
+Lemma inp_oct_self : inp_of oct_self 6 = Rf.mkin 6 6 6 2 0 0 0 2 0 0 0 2 6.
+Proof.
+  unfold inp_of, natoms, Ga, Gb, Mab, oct_self, oct, vnorm2, vx, vy, vz. cbn [map sumf fst snd length INR]. f_equal; lra.
+Qed.
 Lemma optimal_hypotheses_satisfiable : let l := oct_self in let i := inp_of l 6 in
   l <> [] /\ centred l /\ charpoly i 6 = 0 /\ dominates i 6 /\ ~ Rf.fallback i.
 Proof.
   cbv zeta. split; [discriminate|]. split; [|split; [|split]].
   - unfold centred, sumx, sumy, oct_self, oct, vzero, vx, vy, vz. cbn [map sumf fst snd]. split; f_equal; [f_equal| |f_equal|]; ring.
-  - unfold charpoly, oct_self. oct_compute. cbn [map sumf fst snd]. gen_unfold. proj. ring.
-  - intros a b c d U. unfold qKq, oct_self. oct_compute. cbn [map sumf fst snd]. gen_unfold. proj. nra.
-  - unfold Rf.fallback, oct_self. oct_compute. cbn [map sumf fst snd]. eval_ifs.
+  - rewrite inp_oct_self. unfold charpoly. small. ring.
+  - intros a b c d U. rewrite inp_oct_self. unfold qKq. small. nra.
+  - rewrite inp_oct_self. unfold Rf.fallback, Rf.mkin. eval_ifs.
     all: autounfold with rmsdgen_cond in *; repeat progress autounfold with rmsdgen rmsdgen_snap in *; proj_all.
     all: lra.
 Qed.
